@@ -1,1 +1,18 @@
 //! Verification hooks (`--cfg rustrtc_verif` only): lifecycle.
+//! Wrappers over crate-private pure helpers used by the C10 / C17 harness.
+
+use crate::srtp::SrtpProfile;
+
+/// `map_crypto_suite` (SDES `a=crypto` suite name → profile), errors mapped to `None`.
+pub fn map_crypto_suite(suite: &str) -> Option<SrtpProfile> {
+    crate::peer_connection::map_crypto_suite(suite).ok()
+}
+
+/// `parse_sdes_key_params` (`inline:<base64>[|lifetime|mki]` → key‖salt bytes), errors → `None`.
+pub fn parse_sdes_key_params(params: &str) -> Option<Vec<u8>> {
+    crate::peer_connection::parse_sdes_key_params(params).ok()
+}
+
+pub fn generate_sdes_key_params() -> String {
+    crate::peer_connection::generate_sdes_key_params()
+}
